@@ -327,3 +327,50 @@ contract('mapproxy.service.wmts:WMTSServer.check_request', props=['C16'],
          opaque_spec={'make_request': {'raises': ['RequestError']}, 'values': {'pure': True}},
          raises={'RequestError': True},
          trace=[_wmts_request_known])
+
+
+# ---- TileLayer.checked_dimensions: only configured dimension names and configured values reach the tile manager (and the cache path) --
+def _dimension_value_checked(ex, st, k):
+    import z3
+    from pyvc.values import eq, VStr
+    evs_ = st.trace[getattr(st, 'iter_start_trace', 0):]
+    dim, values = st.env['dimension'], st.env['values']
+    gets = [e for e in evs_ if e.name == 'get']
+    ins = [e for e in evs_ if e.name == 'contains' and len(e.args) == 2 and hasattr(e.args[0], 't') and e.args[0].t.eq(values.t)]
+    sets = [e for e in evs_ if e.name == 'setitem']
+    ok = len(gets) == 1 and len(ins) == 1 and len(sets) == 1 and len(gets[0].args) == 1 and gets[0].args[0] is dim \
+        and ins[0].args[1] is gets[0].result and sets[0].args[1] is dim
+    g = z3.BoolVal(bool(ok))
+    if ok:
+        offered = ex.truth(st, ins[0].result)
+        dflt = ex.opaque_field_at(st, sets[0], values, 'default')
+        val = sets[0].args[2]
+        from pyvc.values import opaque_eq_str
+        v = gets[0].result
+        may_default = z3.Or(z3.Not(ex.truth(st, v)), opaque_eq_str(v.t, z3.StringVal('default')))
+        g = z3.And(g, z3.If(offered, z3.BoolVal(val is gets[0].result), z3.And(eq(val, dflt), may_default)))
+    yield ('dimension_value_is_offered_or_default', g,
+           'for every CONFIGURED dimension the value handed on is the requested one only if it is among the configured values, '
+           'otherwise the configured default (possible only for an absent / empty / "default" request value - anything else is refused)')
+
+
+def _dimension_refused(ex, st, k, pre, exc):
+    import z3
+    from pyvc.values import opaque_eq_str
+    evs_ = st.trace[getattr(st, 'iter_start_trace', 0):]
+    gets = [e for e in evs_ if e.name == 'get']
+    ins = [e for e in evs_ if e.name == 'contains']
+    g = z3.BoolVal(len(gets) == 1 and len(ins) == 1)
+    if len(gets) == 1 and len(ins) == 1:
+        v = gets[0].result
+        g = z3.And(g, z3.Not(ex.truth(st, ins[0].result)), ex.truth(st, v))
+    yield ('only_unknown_values_are_refused', g, 'the request is refused here only for a non-empty value that is not among the configured ones')
+
+
+contract(S + 'TileLayer.checked_dimensions', props=['C16', 'C09'],
+         types=dict(tile_request='opaque'), returns='opaque', default_callee='opaque',
+         opaque_fields={'default': 'opaque'}, stable_fields=['default'],
+         opaque_spec={'items': {'returns': 'list[tuple[opaque,opaque]]', 'pure': True}, 'get': {'pure': True},
+                      'contains': {'returns': 'bool', 'pure': True}},
+         raises={'RequestError': True},
+         loops={0: dict(inv=[], types={'dimensions': 'opaque'}, body_trace=[_dimension_value_checked], raise_trace=[_dimension_refused])})
